@@ -366,6 +366,19 @@ func streamChain() {
 		s.add("chain "+hx(k)+" "+hx(b.String()), realChain(circle, k, b.String()))
 		s.stat("long-chain")
 	}
+	// runs of one conversion (whole turns of the circle and their neighbours), runs that cancel, from every key
+	for _, k := range keys {
+		for _, c := range "prds" {
+			for _, n := range []int{11, 12, 13, 23, 24, 25, 36, 48, 120} {
+				ch := strings.Repeat(string(c), n)
+				s.add("chain "+hx(k)+" "+hx(ch), realChain(circle, k, ch))
+			}
+		}
+		for _, ch := range []string{"pp", "rr", "ds", "sd", "prrp", "dpps", "ddss", "dsdsds", "pprr", "dddddddddddds", "sdddddddddddd", strings.Repeat("ds", 30), strings.Repeat("pr", 12)} {
+			s.add("chain "+hx(k)+" "+hx(ch), realChain(circle, k, ch))
+		}
+		s.stat("runs")
+	}
 	for _, k := range []string{"E#", "Fb", "A#m", "xyz", "", "G#"} {
 		s.add("chain "+hx(k)+" "+hx("d"), realChain(circle, k, "d"))
 	}
@@ -650,7 +663,7 @@ func streamLex() {
 	s, done := openStream("lex")
 	defer done()
 	// all strings over a small alphabet up to a length bound
-	alphabet := []string{"C", "b", "#", "m", "7", "_", "/", "[", "]", "{", "}", "=", ",", ";", " ", "\n", "R", "1", "♯", "１"}
+	alphabet := []string{"C", "b", "#", "m", "7", "_", "/", "[", "]", "{", "}", "=", ",", ";", " ", "\n", "R", "1", "♯", "１", "\ufeff"}
 	maxLen := pick(3, 4)
 	var rec func(prefix string, n int)
 	rec = func(prefix string, n int) {
